@@ -1,6 +1,7 @@
 package main
 
 import (
+	"bytes"
 	"encoding/base64"
 	"encoding/hex"
 	"errors"
@@ -11,6 +12,7 @@ import (
 	"sync"
 	"sync/atomic"
 	"time"
+	"unicode"
 	"verif/harness/props/c03b"
 
 	"github.com/jcmturner/gofork/encoding/asn1"
@@ -345,6 +347,29 @@ func c03(c *Ctx) {
 		if rec.called {
 			good := hc.tok != nil && hc.tok.valid && strings.HasPrefix(hc.tok.kind, "apreq") && rec.user == hc.tok.user && rec.domain == hc.tok.domain
 			c.Check(good, "the wrapped handler ran only for a token carrying a valid AP-REQ, with that identity", "handler-ran:"+hc.kind, fmt.Sprintf("user=%q domain=%q", rec.user, rec.domain), inp)
+			// the token that was just accepted, again: unchanged, and with unprotected bytes of the ticket's service name
+			// rewritten (the case of one letter; the host part replaced by another of the same length)
+			rawTok, _ := base64.StdEncoding.DecodeString(strings.TrimPrefix(hc.value, "Negotiate "))
+			host := []byte(s.sname[len(s.sname)-1])
+			for vi := 0; vi < 3 && len(rawTok) > 0; vi++ {
+				b := append([]byte{}, rawTok...)
+				if vi > 0 {
+					i := bytes.Index(b, host)
+					if i < 0 || len(host) < 2 {
+						continue
+					}
+					if vi == 1 {
+						b[i] = byte(unicode.ToUpper(rune(b[i])))
+					} else {
+						b[i], b[i+1] = 'x', 'y'
+					}
+				}
+				hc2 := hc
+				hc2.value = "Negotiate " + base64.StdEncoding.EncodeToString(b)
+				st2, _, rec2, _, p2 := do(hc2, 0, nil, nil)
+				c.Check(!p2 && !rec2.called && st2 == 401, "a token that was accepted does not reach the handler a second time, unchanged or with unprotected bytes rewritten", "replayed-token-served", fmt.Sprintf("variant %d status %d", vi, st2), inp)
+				c.Count("replayed-token")
+			}
 		} else {
 			c.Check(!expectServed, "a request carrying a valid AP-REQ in a KRB5 framing is served", "valid-refused:"+hc.kind, fmt.Sprint(status), inp)
 			c.Check(status == 401 && chal >= 1 && chal <= 3, "refused with 401 and a WWW-Authenticate: Negotiate challenge", "refusal-shape:"+hc.kind, fmt.Sprintf("status=%d challenge=%d", status, chal), inp)
